@@ -117,6 +117,7 @@ ROLES = {
     "funcinfunc": "def R0(z1):\n    def {N}(y1):\n        w1 = y1 + z1\n        def in1():\n            nonlocal w1\n            w1 += 1\n            return w1\n        return in1() + y1\n    return {N}(1)\n{F}print(R0(2), c0)\n",
     # a lambda whose DEFAULT is a lambda with a parameter spelled like a captured variable that the outer lambda reads
     "lambdadefaultlambda": "def R0():\n    {N} = 1\n    def cap0():\n        nonlocal {N}\n        {N} += 1\n    cap0()\n    gq9 = lambda fq9=lambda {N}: {N} * 10, *aq9, kq9=lambda *{N}: len({N}): (fq9({N}), kq9({N}, {N}), {N})\n{FI}    return gq9(), {N}, c0\nprint(R0())\n",
+    "classinfuncnamed": "def {N}(p1, q1=2):\n    r1 = p1 + q1\n    class C1:\n        a1 = p1\n        b1 = [r1 for e1 in range(1)]\n        def m1(self):\n            return p1 + q1 + r1\n    r1 += 1\n    return C1.a1, C1.b1, C1().m1()\n{F}print({N}(1), c0)\n",
     "funcwithcomp": "def {N}(a1, b1=2):\n    return [e1 + a1 for e1 in range(b1)]\n{F}print({N}(1), c0)\n",
 }
 _OL = re.compile(r"__ol_[A-Za-z0-9_]+")
@@ -141,7 +142,8 @@ def cell_excluded(ident, role, feat, switches):
                      "globalbelow_import": ["globals", "__import__"], "lambdawalruscomp": ["hasattr"],
                      "compsamename": ["type", "setattr"], "funccaptured": ["hasattr"],
                      "funcglobaldecl": ["globals", "hasattr"], "classnamedbody": ["type", "setattr"],
-                     "funcinfunc": ["hasattr"], "lambdadefaultlambda": ["hasattr"]}.get(role, []))
+                     "funcinfunc": ["hasattr"], "lambdadefaultlambda": ["hasattr"],
+                     "classinfuncnamed": ["hasattr", "type", "setattr"]}.get(role, []))
         if role == "classattr":
             return None   # a class attribute does not shadow a builtin for the generated code
         if ident in used:
